@@ -179,6 +179,8 @@ pub struct Node {
     /// for a wrapping BIT STRING: the unused-bits octet kept in front of the children
     pub lead: Vec<u8>,
     pub content: Vec<u8>,
+    /// write the length in a longer form than DER allows (`81 n` below 128, `82 hi lo` below 256, …): BER only
+    pub long_len: bool,
 }
 
 pub fn parse_nodes(b: &[u8]) -> Option<Vec<Node>> {
@@ -188,7 +190,7 @@ pub fn parse_nodes(b: &[u8]) -> Option<Vec<Node>> {
         let (h, n) = split_tlv(&b[off..])?;
         let tag = b[off];
         let c = &b[off + h..off + h + n];
-        let mut node = Node { tag, kids: None, lead: vec![], content: c.to_vec() };
+        let mut node = Node { tag, kids: None, lead: vec![], content: c.to_vec(), long_len: false };
         if tag & 0x20 != 0 {
             node.kids = Some(parse_nodes(c)?);
         } else if tag == 0x04 && n >= 2 && matches!(c[0], 0x30 | 0x31 | 0x03 | 0x02 | 0x06) {
@@ -210,7 +212,17 @@ pub fn encode_nodes(nodes: &[Node]) -> Vec<u8> {
             Some(k) => { let mut v = n.lead.clone(); v.extend(encode_nodes(k)); v }
             None => n.content.clone(),
         };
-        out.extend(tlv(n.tag, &c));
+        if n.long_len {
+            out.push(n.tag);
+            let l = c.len();
+            if l < 0x80 { out.extend([0x81, l as u8]); }
+            else if l < 0x100 { out.extend([0x82, 0, l as u8]); }
+            else if l < 0x10000 { out.extend([0x83, 0, (l >> 8) as u8, l as u8]); }
+            else { out.extend([0x84, 0, (l >> 16) as u8, (l >> 8) as u8, l as u8]); }
+            out.extend(&c);
+        } else {
+            out.extend(tlv(n.tag, &c));
+        }
     }
     out
 }
